@@ -310,21 +310,21 @@ Definition exec_quit (s : state) (signer k addr : N) : outcome state :=
 
 (** ** commitDpos *)
 
-(** normalQuit *)
-Definition quit_info (owner init : N) (key : N * N) (i : infov) : infov :=
-  let sum := w64 (i_cons i + i_cand i + i_new i + i_wcons i + i_wcand i + i_wunf i) in
-  mkIV 0 0 0 0 0 (if snd key =? owner then w64 (sum + init) else sum).
+(** normalQuit: every authorize info of the peer is unfrozen; the owner's record of this peer
+    additionally receives initPos (the code updates it inside the iteration when it exists and
+    creates it with WithdrawUnfreezePos = initPos otherwise - the same values either way, written
+    here as one update after the iteration). *)
+Definition quit_info (_ : N * N) (i : infov) : infov :=
+  mkIV 0 0 0 0 0 (w64 (i_cons i + i_cand i + i_new i + i_wcons i + i_wcand i + i_wunf i)).
 
 Definition on_peer (k : N) (f : N * N -> infov -> infov) (key : N * N) (i : infov) : infov :=
   if fst key =? k then f key i else i.
 
 Definition normal_quit (s : state) (k : N) (p : peerv) : state :=
-  let infos1 := amap (on_peer k (quit_info (p_owner p) (p_init p))) (s_infos s) in
-  let infos2 := match aget pair_eqb (k, p_owner p) infos1 with
-                | Some _ => infos1
-                | None => iset k (p_owner p) (mkIV 0 0 0 0 0 (p_init p)) infos1
-                end in
-  set_infos infos2 s.
+  let infos1 := amap (on_peer k quit_info) (s_infos s) in
+  let i := iget k (p_owner p) infos1 in
+  let i' := mkIV (i_cons i) (i_cand i) (i_new i) (i_wcons i) (i_wcand i) (w64 (i_wunf i + p_init p)) in
+  set_infos (iset k (p_owner p) i' infos1) s.
 
 (** blackQuit *)
 Definition black_total (i : infov) : N := w64 (i_cons i + i_cand i + i_new i + i_wcons i + i_wcand i).
